@@ -793,10 +793,33 @@ func (i *interpreter) hasMethod(t types.Type, name string) bool {
 func inBufferWriteTo(fr *frame, a []value) value {
 	i := fr.i
 	content := i.mkStr(boxContent(i, a[0], bufferField))
+	total := lenOf(i, content)
+	if tc, ok := total.(int); ok && tc == 0 {
+		inBufferReset(fr, a[:1])
+		return tuple{int64(0), iface{}}
+	}
 	n, err := i.writeTo(fr, a[1].(iface), content)
-	inBufferReset(fr, a[:1])
 	n64 := i.conv(types.Typ[types.Int64], types.Typ[types.Int], n)
-	return tuple{n64, err}
+	// like the real Buffer: the bytes the writer accepted are consumed, the
+	// rest stays in the buffer; only a complete write resets it
+	full := i.equalsV(types.Typ[types.Int], n, total)
+	isFull := false
+	switch f := full.(type) {
+	case bool:
+		isFull = f
+	case symBool:
+		isFull = i.branch(f.t)
+	}
+	if err.t != nil || !isFull {
+		rest := i.slice(content, n, nil, nil)
+		(*a[0].(*value)).(structure)[bufferField] = rest
+		if err.t == nil {
+			err = i.globalError("io.ErrShortWrite")
+		}
+		return tuple{n64, err}
+	}
+	inBufferReset(fr, a[:1])
+	return tuple{n64, iface{}}
 }
 
 func inIoWriteString(fr *frame, a []value) value {
